@@ -595,7 +595,8 @@ def copies_check(pid, seed, tier):
     exe, err = compile_sim('copies', ['harness/copies.cpp'])
     if exe is None:
         return [{'what': 'harness/copies.cpp does not compile against the current headers', 'log': err[-1500:]}], 0
-    want_kinds = {'C11': ['map_copy', 'multimap_copy'], 'C12': ['set_move', 'vector_growth'], 'C13': ['array_copy']}[pid]
+    want_kinds = {'C11': ['map_copy', 'multimap_copy'], 'C12': ['set_move', 'vector_growth'], 'C13': ['array_copy'], 'C14': ['bag_copy'], 'C15': ['counting_set_copy'],
+                  'C17': ['disjoint_set_copy']}[pid]
     cfgs = [(2, 2, 'uniform', 16384, 'NONE', 10), (3, 1, 'late', 1, 'NR', 25), (4, 2, 'starve', 0, 'NLNR', 6)]
     if tier != 'quick':
         cfgs += [(n, p, pol, kb, rt, 40) for (n, p) in ((1, 1), (5, 5), (6, 2), (8, 4)) for pol in ('uniform', 'early', 'delayreduce') for kb, rt in ((16384, 'NONE'), (1, 'NLNR'))]
@@ -617,6 +618,10 @@ def copies_check(pid, seed, tier):
                 'vector_growth': sorted(str(i % 3 + 10 * rk) for rk in range(n) for i in range(K)),
                 'map_copy': sorted('%d=%d' % (i * n + rk, 100 + i) for rk in range(n) for i in range(K)),
                 'multimap_copy': sorted('%d=%d' % (i % 4, 1000 * rk + i) for rk in range(n) for i in range(K)),
+                'bag_copy': sorted([str(i * n + rk) for rk in range(n) for i in range(K)] + [str(100000 + i * n + rk) for rk in range(n) for i in range(K)]),
+                'counting_set_copy': sorted(['%d=%d' % (k, n * len([i for i in range(K) if i % 5 == k])) for k in range(5) if k < K] +
+                                            ['%d=%d' % (100 + k, n * len([i for i in range(K) if i % 3 == k])) for k in range(3) if k < K]),
+                'disjoint_set_copy': sorted(str(10 * rk + j) for rk in range(n) for j in range(3)),
                 'array_copy': sorted('%d=%d' % (i, 5 + sum(10 * (rk + 1) + i for rk in range(n))) for i in range(2 * n + 1))}
         for kind in want_kinds:
             nobs += 1
@@ -626,6 +631,12 @@ def copies_check(pid, seed, tier):
             if sorted(g[0]) != want[kind]:
                 fails.append({'what': '%s on %d ranks: operations issued before the new object was made are missing from it after the next barrier: it holds %d entries %s, issued %d %s' % (
                     kind, n, len(g[0]), sorted(g[0])[:8], len(want[kind]), want[kind][:8]), 'cmd': r['cmd']})
+            elif kind in ('bag_copy', 'counting_set_copy', 'disjoint_set_copy'):
+                orig = {'bag_copy': sorted(str(i * n + rk) for rk in range(n) for i in range(K)),
+                        'counting_set_copy': sorted('%d=%d' % (k, n * len([i for i in range(K) if i % 5 == k])) for k in range(5) if k < K),
+                        'disjoint_set_copy': sorted(str(10 * rk + j) for rk in range(n) for j in range(2))}[kind]
+                if sorted(g[1]) != orig:
+                    fails.append({'what': '%s on %d ranks: operations issued on the copy changed the original: it holds %s, issued on it %s' % (kind, n, sorted(g[1])[:10], orig[:10]), 'cmd': r['cmd']})
             elif kind.endswith('_copy') and sorted(g[1]) != want[kind]:
                 fails.append({'what': '%s on %d ranks: the original holds %d entries after the barrier, issued %d' % (kind, n, len(g[1]), len(want[kind])), 'cmd': r['cmd']})
     return fails, nobs
@@ -653,7 +664,7 @@ def evaluate(pid, seed, tier):
             x['history'] = h
         cases += c
     ncopies = 0
-    if pid in ('C11', 'C12', 'C13'):
+    if pid in ('C11', 'C12', 'C13', 'C14', 'C15'):
         cf, ncopies = copies_check(pid, seed, tier)
         fails += cf
     n, bad, err = coq_check_cases(pid.lower(), cases)
